@@ -123,11 +123,32 @@ def collect_traces(ctx, dense_budgets_first=True):
 
 
 def validate(ctx, trs, sigprefix='cross:trace'):
-    verdicts, st, gen, runs = traces.validate('Trace_Cross', [R.strip(t) for t in trs],
-                                              cfg='Trace_Cross.cfg', diag_cfg='Trace_Cross_diag.cfg')
-    for r_ in runs:
-        ctx.add_tlc(r_, 'trace validation (Trace_Cross), %d traces' % len(trs))
-    for t, v in zip(trs, verdicts):
+    full = [t for t in trs if not t.get('degraded')]
+    verdicts = {}
+    if full:
+        vs, st, gen, runs = traces.validate('Trace_Cross', [R.strip(t) for t in full],
+                                            cfg='Trace_Cross.cfg', diag_cfg='Trace_Cross_diag.cfg')
+        for r_ in runs:
+            ctx.add_tlc(r_, 'trace validation (Trace_Cross), %d traces' % len(full))
+        verdicts.update({id(t): v for t, v in zip(full, vs)})
+    # degraded recordings (a refactoring removed the _iter / _func seam): count abstraction with silent iteration steps,
+    # final flags judged here; nothing is claimed that was not observed
+    noiter = [t for t in trs if t.get('degraded') == 'noiter' and t['ev'][-1].get('ev') != 'raised']
+    if noiter or (full and ctx.tier != 'quick'):
+        proj = noiter + ([t for t in full if t['ev'][-1].get('ev') != 'raised'] if ctx.tier != 'quick' else [])
+        vs, st, gen, runs = traces.validate('Trace_CrossCounts', [R.to_counts(t) for t in proj],
+                                            cfg='Trace_CrossCounts.cfg', diag_cfg='Trace_CrossCounts_diag.cfg')
+        for r_ in runs:
+            ctx.add_tlc(r_, 'trace validation (Trace_CrossCounts, projected recordings), %d traces' % len(proj))
+        for t, v in zip(proj, vs):
+            if t.get('degraded'):
+                verdicts[id(t)] = v
+            elif not v['ok'] and verdicts[id(t)]['ok']:
+                verdicts[id(t)] = dict(ok=False, why='projection onto CrossCounts rejected: ' + v['why'])
+    degraded = sorted(set(t['degraded'] for t in trs if t.get('degraded')))
+    if degraded:
+        ctx.notes['degraded'] = 'teneva.cross lost a seam (%s): recordings validated at reduced resolution' % ', '.join(degraded)
+    for t in trs:
         key = (t['cfg'], t['meta'])
         if t['ev'] and t['ev'][-1].get('ev') == 'raised':
             ctx.case(key=key, nontrivial=True)
@@ -136,12 +157,25 @@ def validate(ctx, trs, sigprefix='cross:trace'):
             continue
         ctx.case(key=key, nontrivial=interrupted_inside(t),
                  sample={'cfg': t['cfg'], 'fault': t['meta'], 'events': len(t['ev']), 'final': t['ev'][-1]})
+        last = t['ev'][-1]
+        if t.get('degraded'):
+            mm = t['cfg']['mmax']
+            flags = {k: last[k] for k in ('finite', 'cache_ok', 'e_ok', 'evld_ok', 'r_ok', 'conv_ok')}
+            ok = all(flags.values()) and (mm < 0 or last['m'] <= mm) and last['shape'] == t['cfg']['n'] \
+                and last['stop'] in ('m', 'func', 'nswp', 'cb', 'conv', 'e', 'e_vld')
+            if not ok:
+                ctx.violation(sigprefix, 'final state violates the contract (degraded recording): %s; cfg=%s fault=%s' % (last, t['cfg'], t['meta']),
+                              case={'cfg': t['cfg'], 'meta': t['meta'], 'events': t['ev']})
+                continue
+        v = verdicts.get(id(t))
+        if v is None:
+            continue
         if v['ok']:
             ctx.trace_ok()
         else:
             ctx.violation(sigprefix, 'trace rejected (%s); cfg=%s fault=%s' % (v['why'], t['cfg'], t['meta']),
                           case={'cfg': t['cfg'], 'meta': t['meta'], 'events': t['ev']})
-    return verdicts
+    return [verdicts.get(id(t), dict(ok=True, why='not validated (no seam)')) for t in trs]
 
 
 def validate_repo_tests(ctx):
